@@ -120,9 +120,9 @@ func cmdCheck(args []string) {
 func runCheck(prop, repo, verif, tier string) int {
 	t0 := time.Now()
 	seed, _ := strconv.Atoi(os.Getenv("VERIF_SEED"))
-	timeout := 20000
+	timeout := 45000
 	if tier == "thorough" {
-		timeout = 90000
+		timeout = 180000
 	}
 	evPath := filepath.Join(verif, "evidence", prop+".json")
 	os.Remove(evPath)
